@@ -8,6 +8,7 @@ package sched
 
 import (
 	"fmt"
+	"runtime"
 	"sync"
 )
 
@@ -31,9 +32,23 @@ type Result struct {
 
 type thread struct {
 	id      int
+	goid    uint64
 	resume  chan struct{}
 	done    bool
 	blocked any
+}
+
+// goid returns the id of the calling goroutine (parsed from the stack header;
+// about a microsecond, only paid while a controlled run is active).
+func goid() uint64 {
+	var buf [40]byte
+	n := runtime.Stack(buf[:], false)
+	// "goroutine 123 ["
+	var id uint64
+	for i := len("goroutine "); i < n && buf[i] >= '0' && buf[i] <= '9'; i++ {
+		id = id*10 + uint64(buf[i]-'0')
+	}
+	return id
 }
 
 var (
@@ -47,8 +62,26 @@ var (
 	maxPts  int
 )
 
-// Active reports whether a controlled run is in progress.
-func Active() bool { return active }
+// Active reports whether the CALLER is a thread of a controlled run in
+// progress. A goroutine that is not a harness thread (a background worker the
+// code under test spawned) and touches a hooked primitive while a run is in
+// progress is parked until the run is over and then continues with the real
+// primitives: that is the legal schedule in which the background goroutine is
+// slow, and it keeps the scheduler's single-running-thread invariant intact.
+func Active() bool {
+	if !active {
+		return false
+	}
+	cur := current
+	if cur != nil && cur.goid == goid() {
+		return true
+	}
+	fin := finish
+	if fin != nil {
+		<-fin
+	}
+	return false
+}
 
 // Current returns the id of the running thread (-1 outside a run).
 func Current() int {
@@ -73,6 +106,7 @@ func Run(bodies []func(), choices []int, maxPoints int) Result {
 		threads = append(threads, t)
 		body := body
 		go func() {
+			t.goid = goid()
 			<-t.resume
 			func() {
 				defer func() {
@@ -177,7 +211,7 @@ func yield(t *thread, op string) {
 
 // Point is a scheduling point before a synchronisation operation.
 func Point(op string) {
-	if !active {
+	if !Active() {
 		return
 	}
 	yield(current, op)
@@ -186,7 +220,7 @@ func Point(op string) {
 // BlockOn marks the running thread as blocked on obj and yields until some
 // thread calls Unblock(obj).
 func BlockOn(obj any, op string) {
-	if !active {
+	if !Active() {
 		panic("vsync: blocking operation outside a controlled run would deadlock")
 	}
 	t := current
